@@ -348,6 +348,48 @@ Section V1.
     forall cf us st, skip st = false -> Forall (fun r => skip (fst (fst r)) = false) (conv_v1 cf st us).
   Proof. intros. apply conv_v1_skip_invariant. assumption. Qed.
 
+  (* ---- per-call generation options: whatever options EARLIER calls used (e.g. output rails
+     switched off for one call), a call that does not disable a category runs it in full, and
+     the skip flag stays clear ---- *)
+  Notation turn_v1_opts := (turn_v1_opts vf llm post_general intent_step next_of predefined msg_of refusal).
+  Notation conv_v1_opts := (conv_v1_opts vf llm post_general intent_step next_of predefined msg_of refusal).
+
+  Theorem v1_flag_invariant_opts :
+    forall cf ous st, skip st = false ->
+      Forall (fun r => skip (fst (fst r)) = false) (conv_v1_opts cf st ous).
+  Proof.
+    intros cf ous. induction ous as [|[o u] ous IH]; intros st Hs; simpl; constructor.
+    - apply turn_v1_skip_invariant. exact Hs.
+    - apply IH. apply turn_v1_skip_invariant. exact Hs.
+  Qed.
+
+  Fixpoint states_before_opts (cf : cfg) (st : pstate) (ous : list (topts * text)) : list (pstate * topts * text) :=
+    match ous with
+    | [] => []
+    | (o, u) :: ous' => (st, o, u) :: states_before_opts cf (fst (fst (turn_v1_opts cf o st u))) ous'
+    end.
+
+  Theorem v1_gates_with_options :
+    forall cf ous st, skip st = false ->
+      Forall (fun sou => let '(s, o, u) := sou in
+                skip s = false /\
+                (o_in o = true ->
+                 ordered_calls (vf (tidx s)) u (irails cf) (rail_calls SIn (snd (fst (turn_v1_opts cf o s u))))) /\
+                (o_out o = true ->
+                 orails (eff cf o) = orails cf /\
+                 out_gate (eff cf o) s (snd (fst (turn_v1_opts cf o s u))) (snd (turn_v1_opts cf o s u))))
+             (states_before_opts cf st ous).
+  Proof.
+    intros cf ous. induction ous as [|[o u] ous IH]; intros st Hs; simpl; constructor.
+    - split; [exact Hs|]. split.
+      + intros Hi. unfold TurnV1.turn_v1_opts.
+        assert (Hr : irails (eff cf o) = irails cf) by (unfold eff; simpl; rewrite Hi; reflexivity).
+        rewrite <- Hr. apply v1_order.
+      + intros Ho. split; [unfold eff; simpl; rewrite Ho; reflexivity|].
+        unfold TurnV1.turn_v1_opts. apply v1_out_gate. exact Hs.
+    - apply IH. apply turn_v1_skip_invariant. exact Hs.
+  Qed.
+
   (* C02_later_turns (1.0): in every state a conversation can reach - whatever was blocked,
      rewritten or refused before - a bot message is checked exactly as in a fresh conversation
      at the same turn index *)
